@@ -1149,9 +1149,14 @@ def run(args):
         "model's code image is compared with the real code file (driver c11ctx), the SPEC's hand expansion is assembled by the real asl; the quirk flag "
         "inclResetsLabel is probed on the real binary",
         "labels of enclosing expansions (Model/MacroLabels.lean: handle stack, FindLocNode over the whole chain, local before global, two passes; "
-        "Props/C11_Labels.lean: C11_labels_found_at_any_depth, C11_labels_local_before_global, C11_labels_nested_sees_outer, C11_labels_stack_restored): "
+        "Props/C11_Labels.lean: C11_labels_found_at_any_depth, C11_labels_local_before_global, C11_labels_nested_sees_outer, C11_labels_stack_restored; "
+        "C11_labels_refines: for EVERY program tree with NoDoubleDef and NoEarlyBind the model's bytes are the bytes of the SPEC's hand expansion, "
+        "C11_labels_refines_extra_pass / _second_pass: without NoEarlyBind whenever a second pass is made; both hypotheses decidable, evaluated by the "
+        "driver on every generated program and shown necessary: C11_labels_refines_hypothesis_needed = the known finding "
+        "forward-ref-in-macro-body-binds-outer-symbol-when-no-second-pass): "
         "the model's code image is compared with the real code (driver c11lab); SPEC Spec/MacroLabels.lean (hand expansion with renamed labels) is "
-        "executable and judges the real code, its expansion is also assembled by the real asl; model = spec for all programs is NOT proved (run, not proved)",
+        "executable and judges the real code, its expansion is also assembled by the real asl; a program for which the theorems' hypotheses hold and "
+        "model and spec differ is reported as a proof problem",
         "the line buffer (as_dynstr, ReplaceToken's growth rule) is not modelled: the token layer model works on unbounded lists, which is what the "
         "real code does on the unchanged tree for every length the long-line stream generates"])
     res.coverage.update(
